@@ -371,8 +371,12 @@ def impl(case: Case) -> str:
                 items.sort()
                 out.append("[" + "&".join(x for _, x in items) + "]")
     finally:
-        if opts["d"] and getattr(sim, "_data_storage_dir", None):
-            shutil.rmtree(sim._data_storage_dir, ignore_errors=True)
+        tmp = getattr(sim, "_data_storage_dir", None) if opts["d"] else None
+        if tmp:
+            import gc
+            holder = sim = None                # the disk storages remove their own directories first
+            gc.collect()
+            shutil.rmtree(tmp, ignore_errors=True)
     return " ".join(out)
 
 
@@ -970,6 +974,15 @@ def builder_history(rng: random.Random):
         if len(subs) <= 60 and 1000 <= P[1][0] <= 9000:
             break
     n = len(subs)
+    e = None
+    if rng.random() < 0.2:
+        e = dt.date(*subs[rng.randrange(n)][1]) - dt.timedelta(days=rng.choice([0, 1]))
+        if e.year < 1000:
+            e = None
+
+    def live(cs):                      # the builder drops the inputs that start after the variable's end
+        return [c for c in cs if e is None or dt.date(*c[0][1]) <= e]
+
     pre = rng.sample(subs, min(n, rng.choice([0, 1, 2, 3])))
     calls = [(q, [Fraction(rng.randint(0, 40)) for _ in range(count)]) for q in pre]
     longs = {P}
@@ -977,7 +990,7 @@ def builder_history(rng: random.Random):
         longs.add(related_period(rng, du, P, subs))
     for L in sorted(longs, key=_builder_key):
         calls.sort(key=lambda c: _builder_key(c[0]))
-        sim = simulate(du, rule, "num", count, calls)
+        sim = simulate(du, rule, "num", count, live(calls))
         if sim is None:
             break
         st, _ = sim
@@ -991,12 +1004,7 @@ def builder_history(rng: random.Random):
         calls.append((L, amt))
     calls.sort(key=lambda c: _builder_key(c[0]))           # Python's sort is stable, like the builder's
     steps = [("S", q, "f", v) for q, v in calls] + [("K",)] + [("A", L) for L in sorted(longs, key=_builder_key)] + [("K",)]
-    e = ""
-    if rng.random() < 0.2:
-        x = dt.date(*subs[rng.randrange(n)][1]) - dt.timedelta(days=1)
-        if x.year >= 1000 and not pre:
-            e = f":e{x.year},{x.month},{x.day}"      # then the inputs that start after it are dropped by the builder too
-    return build_line(du, rule, "num:b" + e, count, steps, tags=("builder",))
+    return build_line(du, rule, "num:b" + (f":e{e.year},{e.month},{e.day}" if e else ""), count, steps, tags=("builder",))
 
 
 def garbage_history(rng: random.Random):
@@ -1008,7 +1016,11 @@ def garbage_history(rng: random.Random):
     P = {"day": ("month", (2019, 2, 1), 1), "month": ("year", (2018, 1, 1), 1), "year": ("year", (2018, 1, 1), 2)}[du]
     if rule == "absent":
         P = tiles(P, du)[0]
-    one = [Fraction(rng.randint(0, 1) if kind == "bool" else 730120 if kind == "date" else rng.randint(0, 4))]
+    if kind in OPAQUE and rule == "divide":
+        rule = "dispatch"
+    npieces = len(tiles(P, du)) if tiles(P, du) else 1
+    one = [Fraction(rng.randint(0, 1) if kind == "bool" else 730120 if kind == "date" else rng.randint(0, 4) if kind == "enum"
+                    else npieces * rng.randint(0, 4))]
     full = one * count
     m = "f" if kind in ("num", "int") else "l"
     steps = [("S", P, "z", full), ("K",), ("H", P, "z~s", full), ("K",)]
@@ -1085,7 +1097,7 @@ def unclaimed_history(rng: random.Random):
         steps = [("S", P, "f", v), ("K",), ("S", P, "f", v), ("K",), ("A", P), ("K",)]
         # routing of Holder.set_input / _set: binding for the correspondence (the oracle stays silent: the
         # statement is about variables declared with a rule)
-        return build_line(du, "absent", rng.choice(KINDS), count, steps, claimed=True, tags=("no-rule",))
+        return build_line(du, "absent", rng.choice(["num", "int"]), count, steps, claimed=True, tags=("no-rule",))
     if c < 0.75:
         du = rng.choice(["month", "year"])
         P = rng.choice([("day", (y, 1, 31), 60), ("month", (y, 3, 1), 1), ("day", (y, 2, 10), 3), ("year", (y, 3, 1), 2),
